@@ -1,4 +1,5 @@
 import HmsProofs.Lemmas.SimHCall
+import HmsProofs.Lemmas.SimHFor
 /-!
 # The general fragment: all simulation statements, for every fuel
 -/
@@ -20,6 +21,11 @@ theorem pgs_zero (G : GCtx) : PGS G 0 := by
   rw [evalStmt]
   trivial
 
+theorem pgf_zero (G : GCtx) : PGF G 0 := by
+  intro A _ loops lscopes d sp name vty rsp a b incl bsp bty stmts env spec ip stk mem _ _ _ _ _ _ _ _ _ _
+  rw [evalStmt]
+  trivial
+
 theorem pgss_zero (G : GCtx) : PGSs G 0 := by
   intro A _ loops lscopes d ss env spec ip stk mem _ _ _ _ _ _ _ _ _
   rw [evalStmts]
@@ -34,20 +40,23 @@ structure AllP (G : GCtx) (n : Nat) : Prop where
   pgss : PGSs G n
   pgbs : PGBS G n
   pgl : PGL G n
+  pgf : PGF G n
 
 /-- **Every statement of the simulation holds at every fuel, in every context** (strong induction
 on the specification's fuel; recursion between functions is covered by the induction, and so is
 the change of context — another handler stack — inside a `try` body). -/
-theorem allP' : ∀ n, ∀ (G : GCtx), G.OK → AllP G n := by
+theorem allP' : ∀ n, ∀ (G : GCtx), G.OK' → AllP G n := by
   intro n
   induction n using Nat.strongRecOn with
   | _ n ih =>
     intro G hG
     cases n with
-    | zero => exact ⟨pe_zero G, pargs_zero G, pcall_zero G, pgs_zero G, pgss_zero G, pgbs_zero G, pgl_zero G⟩
+    | zero => exact ⟨pe_zero G, pargs_zero G, pcall_zero G, pgs_zero G, pgss_zero G, pgbs_zero G, pgl_zero G, pgf_zero G⟩
     | succ k =>
       have hk := ih k (Nat.lt_succ_self k) G hG
-      refine ⟨?_, ?_, ?_, ?_, ?_, ?_, ?_⟩
+      have hpgf : PGF G (k + 1) :=
+        pgf_step G k (fun m hm => (ih m (by omega) G hG).pe) (fun m hm => (ih m (by omega) G hG).pgss)
+      refine ⟨?_, ?_, ?_, ?_, ?_, ?_, ?_, hpgf⟩
       · exact pe_step G hG k (fun m hm => (ih m (by omega) G hG).pe) (fun m hm => (ih m (by omega) G hG).pargs)
           (fun m hm => (ih m (by omega) G hG).pcall)
       · exact pargs_step G k hk.pe hk.pargs
@@ -55,11 +64,11 @@ theorem allP' : ∀ n, ∀ (G : GCtx), G.OK → AllP G n := by
       · exact pgs_step G hG k (fun m hm => (ih m (by omega) G hG).pe) (fun m hm => (ih m (by omega) G hG).pargs) hk.pgl
           (fun m hm => (ih m (by omega) G hG).pgbs)
           (fun m hm hs => (ih m (by omega) (G.withH hs) (hG.withH hs)).pgbs)
-          (fun m hm => (ih m (by omega) G hG).pgss)
+          (fun m hm => (ih m (by omega) G hG).pgss) hpgf
       · exact pgss_step G k hk.pgs hk.pgss
       · exact pgbs_step G k hk.pgss
       · exact pgl_step G k hk.pe hk.pgbs hk.pgl
 
-theorem allP (G : GCtx) (hG : G.OK) : ∀ n, AllP G n := fun n => allP' n G hG
+theorem allP (G : GCtx) (hG : G.OK') : ∀ n, AllP G n := fun n => allP' n G hG
 
 end HmsProofs.Sim
